@@ -1,33 +1,32 @@
-SPECIFICATION Spec
+SPECIFICATION SpecPre2
 CONSTANTS
   Nodes = {"n0", "n1"}
   Apps = {"app0", "app1"}
-  Keys = {"k0", "k1", "k2"}
-  Caps = {2, 3}
+  Keys = {"k0", "k1", "k2", "k3", "k4"}
+  Caps = {2}
   Sizes = {1, 2}
-  Leaves <- MCLeaves
-  QMax <- MCQMax
-  AppLeaf <- MCAppLeaf
+  Leaves <- MCLeavesPre
+  QMax <- MCQMaxPre
+  AppLeaf <- MCAppLeafPre
   TaskGroups = {"tg"}
-  GangApps = {"app1"}
-  Guar <- MCGuar
-  WithRestart = FALSE
-  PreemptOn = FALSE
+  GangApps = {}
+  Guar <- MCGuarPre
+  WithRestart = TRUE
+  PreemptOn = TRUE
   AsCoded = FALSE
-  MaxHist = 7
+  MaxHist = 17
 VIEW view
 CONSTRAINT Bound
 INVARIANT TypeOK
-INVARIANT EmitTest
 INVARIANT C01_NoOvercommit
 INVARIANT C02_QueueWithinMax
 INVARIANT C03_QueueLedger
 INVARIANT C03_RootVsNodes
 INVARIANT C03_NoOrphans
 INVARIANT C03_NonNegative
+INVARIANT C03_Preempting
+INVARIANT C08_GuaranteeKept
 INVARIANT C04_Legal
-INVARIANT C06_NoStrayPlaceholder
-INVARIANT C06_SwapLinks
 INVARIANT C09_Resv
 INVARIANT C10_CompletingIdle
 CHECK_DEADLOCK FALSE
